@@ -6,8 +6,8 @@ import os
 ID = "C01"
 LEVEL = "proof"
 HERE = os.path.dirname(os.path.abspath(__file__))
-_PCXX = os.path.join(HERE, "pcxx.py")          # parallel compile wrapper: the same source in 8 parts
-_NPARTS = "-DC01_NPARTS=10"
+_PCXX = os.path.join(HERE, "pcxx.py")          # parallel compile wrapper: the same source in 11 parts
+_NPARTS = "-DC01_NPARTS=11"
 HARNESSES = [
     {"name": "main", "src": "harness.cpp", "compiler": _PCXX, "flags": ["-O1", "-DTETL_ENABLE_CONTRACT_CHECKS=1", _NPARTS]},
     {"name": "asan", "src": "harness.cpp", "compiler": _PCXX,
@@ -17,15 +17,20 @@ HARNESSES = [
 RULE = ("a case = a whole operation history on two objects of one flavour: static_vector of int / Pod (trivial storage), Tracked / "
         "NxCopy (noexcept non-trivial copy, self-checking) / TdcCopy (trivial default ctor + dtor, user copy/move) / std::string / MoveOnly "
         "(non-trivial storage, Tracked and MoveOnly also at 254/255/256); stack over static_vector of "
-        "int / Tracked / std::string / MoveOnly; inplace_vector of the same seven element kinds; range members with pointer / reverse_iterator / "
-        "bidirectional / forward / single-pass input / random-access class sources; arguments that are elements of the vector itself; "
+        "int / Tracked / std::string / MoveOnly; inplace_vector of the same seven element kinds; static_vector and stack of KeyTag (records "
+        "ordered by key only: operator< coarser than operator==, the six relations are six different functions; every pair of contents of "
+        "length <= 3); range members with pointer / reverse_iterator / "
+        "bidirectional / forward / single-pass input / random-access class sources, the SOURCE range printed after every range operation "
+        "(Tracked / MoveOnly mark a moved-from object, a moved-from std::string is empty: copy vs move is observable); "
+        "arguments that are elements of the vector itself; "
         "capacities {0,1,2,3,4,8,16,254,255,256} and "
         "{65534,65535,65536}; exhaustive part: every content state of length <= cap <= 3 over values {1,18,35} x every single "
         "operation (54 static_vector, 18 stack, 24 inplace_vector operations of the model) with every position/count/index "
         "argument in [-1, size+1]; short exhaustive histories for inplace_vector and stack; random part: seeded capacity-aware "
         "histories of length <= 40, ~35% of steps at or crossing full/empty, fill-to-boundary runs at 254/255/256 and 65534/65535/65536; non-trivial = distinct history that reaches a non-empty state")
 TRUSTED_BASE = ["reference leg: libstdc++ 12 std::vector<int> / std::stack<int, std::vector<int>> driven by the same history "
-                "(reserve()d, so no reallocation effects)",
+                "(reserve()d, so no reallocation effects); the relations of the KeyTag flavours and the source range after a range member are "
+                "computed with std::vector<T> / std::stack<T> of the flavour's own element type",
                 "props/C01/pcxx.py (parallel compile wrapper around g++)"]
 ASSUMPTIONS = ["element values are ints (the non-trivial element types wrap an int, count live instances and check their own identity; "
                "std::string elements are 24-digit decimal strings)",
@@ -40,7 +45,11 @@ CAPS = {
     "stack": [0, 1, 3, 4, 16, 256], "st_trk": [1, 3, 4, 255, 256], "st_str": [1, 3], "st_mov": [1, 3, 4],
     "iv_int": SV_CAPS + BIG_CAPS, "iv_trk": [0, 1, 3, 4, 16, 254, 255, 256], "iv_nxc": [1, 3, 4], "iv_mov": [0, 1, 3, 4], "iv_str": [1, 3, 4],
     "iv_pod": [3, 16], "iv_tdc": [1, 3, 4], "sv_tdc": [3, 4],
+    # KeyTag: records ordered by key only (operator< coarser than operator==)
+    "sv_kt": [2, 3, 8], "st_kt": [3, 4],
 }
+# values of the KeyTag flavours: element = 16 * key + tag; two tags of key 1, one of key 2 (and two more in the random part)
+KT_VALS = [17, 18, 33]
 # operations that need a copyable element type (the harness answers `unsupported-step` for them on MoveOnly)
 NEEDS_COPY = {"icr", "inn", "irg", "rsv", "asn", "asr", "cpa", "cpc", "sca", "ctv", "ctr", "cpi", "ivc", "fcc", "irk", "ask", "ctk", "pba", "eba", "ica", "ina", "rva"}
 # iterator kinds of the range members (harness.cpp with_range): pointer, etl::reverse_iterator<T*>, bidirectional,
@@ -401,6 +410,19 @@ def gen(tier, rng):
     for fl in ("iv_int", "iv_trk", "iv_nxc", "iv_mov", "iv_str", "iv_pod", "iv_tdc"):
         for cap in [c for c in CAPS[fl] if c <= (3 if quick else 4)]:
             exhaustive_single(out, fl, cap, vals, full_contents=(fl == "iv_int" or not quick))
+    # ---- records ordered by key only (operator< coarser than operator==), the element type for which the six relations
+    #      are six different functions: every single operation from every content state (every history ends in `rel`) ...
+    exhaustive_single(out, "sv_kt", 2, KT_VALS, full_contents=True, rng=rng, keep=(0.4 if quick else 1.0))
+    exhaustive_single(out, "st_kt", 3, KT_VALS, full_contents=True)
+    if not quick:
+        exhaustive_single(out, "sv_kt", 3, KT_VALS, full_contents=True)
+    # ... and all six relations of static_vector and of stack on EVERY pair of contents of length <= 3 (4 in the thorough
+    #     tier): element-wise equivalent but unequal pairs, proper prefixes, the first difference at every position
+    for fl, cap in (("sv_kt", 3), ("st_kt", 3)) if quick else (("sv_kt", 8), ("st_kt", 4)):
+        conts = [c for n in range(0, (4 if quick else 5)) for c in itertools.product(KT_VALS, repeat=n)]
+        for c0 in conts:
+            for c1 in conts:
+                out.append(hist(fl, cap, setup_ops(fl, c0, c1) + ["rel"]))
     # ---- inplace_vector and stack: exhaustive short histories
     iv_alpha = ["tpb 0 2", "tem 0 3", "upb 0 4", "pop 0", "clr 0", "bk 0", "at 0 1", "ivc 0", "ivm 0", "tpr 1 6", "mva 0", "cpa 1", "sbk 0 9"]
     st_alpha = ["pb 0 1", "eb 0 2", "pop 0", "bk 0", "swp", "rel", "cpc 0", "pbr 1 3", "mva 0", "cpa 1", "ebr 0 4"]
@@ -516,7 +538,8 @@ def gen(tier, rng):
     # ---- random capacity-aware histories
     n_rand = 2600 if quick else (20000 if tier == "search" else 120000)
     flavours = ["sv_int"] * 5 + ["sv_trk"] * 2 + ["sv_nxc", "sv_str", "sv_mov", "sv_mov", "sv_pod", "sv_tdc"] + \
-               ["stack", "stack", "st_trk", "st_str", "st_mov"] + ["iv_int"] * 3 + ["iv_trk", "iv_nxc", "iv_mov", "iv_str", "iv_pod", "iv_tdc"]
+               ["stack", "stack", "st_trk", "st_str", "st_mov"] + ["iv_int"] * 3 + ["iv_trk", "iv_nxc", "iv_mov", "iv_str", "iv_pod", "iv_tdc"] + \
+               ["sv_kt", "sv_kt", "st_kt"]
     for _ in range(n_rand):
         fl = rng.choice(flavours)
         cap = rng.choice([c for c in CAPS[fl] if c < 60000])
@@ -527,7 +550,7 @@ def gen(tier, rng):
             # go to the size-type boundary first
             fill = rng.choice([cap - 1, cap, cap - 2])
             steps = min(steps, 12)
-        out.append(random_history(rng, fl, cap, vals, steps, want_invalid, fill))
+        out.append(random_history(rng, fl, cap, (KT_VALS + [1, 34]) if fl.endswith("_kt") else vals, steps, want_invalid, fill))
     return out
 
 
